@@ -362,3 +362,14 @@ package bgv
 //@   requires 0 - 9223372036854775808 <= unbox(op1) && unbox(op1) <= 9223372036854775807
 //@   ensures implies(isnil(err), sameval(opOut.MetaData.PlaintextMetaData.Scale, old(op0.MetaData.PlaintextMetaData.Scale)))
 //@   ensures implies(isnil(err), len(opOut.Value) == len(op0.Value) && val(opOut.Value[1]) == old(val(op0.Value[1])))
+
+// ---- multiply-then-add with an integer scalar (property C05): the ACCUMULATOR keeps its degree - a
+// ---- component of the accumulator that the product does not have is left as it is (finding F44: the
+// ---- accumulator was cut down to the degree of the first operand)
+//@ afunc Evaluator.MulThenAdd#scalaracc
+//@   property C05
+//@   dyn op1 *big.Int
+//@   case len(op0.Value) == 2 && len(opOut.Value) == 3
+//@   case len(op0.Value) == 2 && len(opOut.Value) == 2
+//@   ensures implies(isnil(err) && old(len(opOut.Value)) == 3, len(opOut.Value) == 3 && val(opOut.Value[2]) == old(val(opOut.Value[2])))
+//@   ensures implies(isnil(err) && old(len(opOut.Value)) == 2, len(opOut.Value) == 2)
